@@ -53,7 +53,7 @@ func propC14(c *ctx) error {
 			styles = append(styles, struct{ name, lit string }{"raw", "`" + s + "`"})
 		}
 		for _, st := range styles {
-			out := implEval(st.lit, []any{map[string]any{}}, nil)
+			out := implEvalStable(st.lit, []any{map[string]any{}})
 			res.eval(st.name+"|"+s, true, J{"string": s, "literal": st.lit})
 			res.S3Checked++
 			want := "string:" + hexOf(s)
@@ -291,7 +291,9 @@ func propC02(c *ctx) error {
 	// to a browser (boolean attributes, event handlers, URLs, style) and whatever the value spells (false, null, …);
 	// alone, over a static attribute of the same name with a value, and over a VALUELESS static one
 	names := []string{"checked", "disabled", "selected", "readonly", "required", "hidden", "multiple", "autofocus", "open", "async", "defer",
-		"value", "href", "src", "style", "class", "id", "name", "type", "onclick", "data-x", "aria-hidden", "title", "for", "is", "x"}
+		"value", "href", "src", "style", "class", "id", "name", "type", "onclick", "data-x", "aria-hidden", "title", "for", "is", "x",
+		// directive names in another letter case are NOT directives: ordinary dynamic attributes, escaped like any other
+		"Text", "TEXT", "tExt", "Raw", "RAW", "If", "Range", "With", "Insert", "Remove", "Define", "Else"}
 	words := []string{"false", "true", "", "0", "1", "null", "nil", "undefined", "none", "off", "no", "False", "FALSE", "<nil>", " false ", "checked", "javascript:alert(1)"}
 	if c.quick() {
 		words = words[:9]
